@@ -1154,4 +1154,59 @@ pub mod verif_hooks {
             buffer.reverse();
         }
     }
+
+    /// `set_unicode_props` + `form_clusters` over a text of (code point, cluster) at a cluster level:
+    /// (cluster, grapheme-continuation bit) of every item afterwards.
+    pub fn grapheme_prep(text: &[(u32, u32)], level: u32) -> Option<Vec<(u32, bool)>> {
+        for (c, _) in text {
+            char::try_from(*c).ok()?;
+        }
+        let items: Vec<Item> = text.iter().map(|(c, k)| (*c, *k, 0, 0)).collect();
+        let mut b = make_buffer(&items, level, 0, Direction::LeftToRight);
+        set_unicode_props(&mut b);
+        super::form_clusters(&mut b);
+        Some(
+            b.info[..b.len]
+                .iter()
+                .map(|i| (i.cluster, _hb_glyph_info_is_continuation(i)))
+                .collect(),
+        )
+    }
+
+    /// `hb_aat_layout_track` (AAT trak) on a bare buffer of items (cluster, continuation bit, `trak` feature on):
+    /// the plan is the one `shape()` compiles for this face and direction, every position starts as
+    /// advance 1000 / offset 0 on both axes. Returns (x_advance, y_advance, x_offset, y_offset) per item.
+    pub fn track_of(
+        face: &hb_font_t,
+        dir: Direction,
+        level: u32,
+        items: &[(u32, bool, bool)],
+    ) -> Vec<(i32, i32, i32, i32)> {
+        let plan = hb_ot_shape_plan_t::new(face, dir, None, None, &[]);
+        let its: Vec<Item> = items
+            .iter()
+            .map(|(k, cont, _)| {
+                let p = if *cont {
+                    crate::hb::buffer::UnicodeProps::CONTINUATION.bits()
+                } else {
+                    0
+                };
+                (0, *k, p, 0)
+            })
+            .collect();
+        let mut b = make_buffer(&its, level, 0, dir);
+        for (info, it) in b.info.iter_mut().zip(items) {
+            info.mask = if it.2 { plan.trak_mask } else { 0 };
+        }
+        b.have_positions = true;
+        for p in b.pos.iter_mut() {
+            p.x_advance = 1000;
+            p.y_advance = 1000;
+        }
+        aat_layout::hb_aat_layout_track(&plan, face, &mut b);
+        b.pos[..b.len]
+            .iter()
+            .map(|p| (p.x_advance, p.y_advance, p.x_offset, p.y_offset))
+            .collect()
+    }
 }
